@@ -23,7 +23,7 @@ RULE = ("one case = one fit() of a tiny model with (value sequence from {monoton
         "{0,1e-12,0.1,1,inf}, criterion in {relative, absolute, variance}, evaluator kind); thorough additionally enumerates all "
         "sequences over a 4-value alphabet of length <= 7 for patience <= 2. Non-trivial: >= patience+1 evaluations happen (the "
         "rule is consulted); distinct by (sequence, patience, periods, criterion, tolerance).")
-REQUIRED = ["fits", "decisions_compared", "stops_observed", "runs_to_completion", "criterion_relative", "criterion_absolute",
+REQUIRED = ["runs_with_a_second_unsatisfiable_stopper", "fits", "decisions_compared", "stops_observed", "runs_to_completion", "criterion_relative", "criterion_absolute",
             "criterion_variance", "metric_evaluator_runs", "observable_evaluator_runs", "deprecated_class_runs",
             "rejections_observed", "patience_gate_exercised"]
 ANCHOR_FILES = ["qucumber/callbacks/early_stopping.py", "qucumber/callbacks/variance_based_early_stopping.py"]
@@ -161,6 +161,12 @@ def run_case(case, ctx):
         else:
             es = ctx.lib("EarlyStopping", EarlyStopping, ps, tol, p, ev, name, criterion=crit, tags=tags)
     ctx.count("criterion_" + crit)
+    # a second stopper that can never be satisfied (deviation < 0 is impossible), listed AFTER the one under test: it must
+    # not take back the first one's stop request
+    extra = []
+    if (len(vals) + p + pe) % 3 == 0:
+        extra = [EarlyStopping(1, 0.0, 1, ev, name, criterion="absolute")]
+        ctx.count("runs_with_a_second_unsatisfiable_stopper")
     log = trainrec.Log()
     rec = trainrec.recorder_callback(log, digest_params=False)
     # ---- reference decision procedure, step by step (so that an unspecified 0/0 can follow the library)
@@ -190,7 +196,7 @@ def run_case(case, ctx):
     exc_tags["ref_zero"] = ref_zero
     with warnings.catch_warnings():
         warnings.simplefilter("ignore")
-        ctx.lib("fit", st.fit, data, epochs=epochs, starting_epoch=start, pos_batch_size=2, lr=0.01, callbacks=[ev, es, rec], tags=exc_tags,
+        ctx.lib("fit", st.fit, data, epochs=epochs, starting_epoch=start, pos_batch_size=2, lr=0.01, callbacks=[ev, es] + extra + [rec], tags=exc_tags,
                 exc_tagger=lambda e, tb: {"raised_in": "_relative_change" if "_relative_change" in tb.splitlines()[-3] + tb.splitlines()[-4]
                                           else "elsewhere"})
     ctx.count("fits")
